@@ -104,3 +104,32 @@ pub fn c14_compute(areas: &[f32], idx: usize) -> f32 {
     let v = guard[idx];
     v / total
 }
+
+// ---- C13: a bounding box whose min_z accumulator reads the y coordinate
+pub struct P3 {
+    pub x: f32,
+    pub y: f32,
+    pub z: f32,
+}
+pub fn c13_bbox(pts: &[P3]) -> (f32, f32) {
+    let mut min_z = f32::INFINITY;
+    let mut max_z = f32::NEG_INFINITY;
+    for p in pts.iter() {
+        min_z = min_z.min(p.y);
+        max_z = max_z.max(p.z);
+    }
+    (min_z, max_z)
+}
+
+// ---- C20: a name table with a swapped entry
+pub enum Zone {
+    A1,
+    B1,
+}
+pub fn c20_zone_from_str(s: &str) -> Option<Zone> {
+    match s {
+        "A1" => Some(Zone::A1),
+        "B1" => Some(Zone::A1),
+        _ => None,
+    }
+}
